@@ -7,7 +7,7 @@
   * run_model with the `cfgx` prefix (Connect watches the loops' errors while negotiating: C09)
   * the C08 predicate evaluated on Go's observations only
 """
-import copy, os, re, struct
+import copy, os, re, struct, time
 import vlib
 import client_common as cc
 
@@ -171,10 +171,19 @@ def run_model(scripts, variant, watch=False):
             assert ln.startswith("cfg ")
             ln = "cfgx 1 " + ln[4:]
         lines.append(ln)
-    rc, out = vlib.run_oracle("client", "".join(l + "\n" for l in lines), timeout=900)
-    res = out.split("\n")
-    if res and res[-1] == "":
-        res.pop()
+    text = "".join(l + "\n" for l in lines)
+    res = []
+    for attempt in range(8):       # build/oracle_client is shared and rebuilt in place by other checks: retry
+        try:
+            rc, out = vlib.run_oracle("client", text, timeout=900)
+        except OSError:
+            rc, out = 1, ""
+        res = out.split("\n")
+        if res and res[-1] == "":
+            res.pop()
+        if rc == 0 and len(res) == len(lines):
+            break
+        time.sleep(1.5)
     return res
 
 
